@@ -141,6 +141,18 @@ func runOp(kind string, node *gtree.Node, c *tok.Conc, variant int, exp *apiExp,
 				return fmt.Sprintf("%s: From-Root=%q From-Markdown=%q (%v)", er.name, o.Out, md.Out, md.Err), "differs-from-markdown"
 			}
 		}
+	case "verify":
+		// a directory that does not exist: the call fails (missing paths, or an invalid name) and must leave no trace
+		o := real.VerifyRootMissing(node)
+		if exp == nil {
+			return "", ""
+		}
+		if exp.K == "err" {
+			return checkSentinel(o, exp.Err), "sentinel"
+		}
+		if o.Class() != "err" {
+			return fmt.Sprintf("verify of a missing directory: class=%s %s", o.Class(), firstLine(o.Panic)), "verify-missing-dir"
+		}
 	case "walk":
 		var recs []real.WalkRec
 		var o real.Outcome
@@ -271,6 +283,8 @@ func replayHistory(a *apiState, c *tok.Conc, mdDiff bool) (string, string) {
 			}
 		case "Op":
 			variant := a.N + i
+			// every operation of a history gets its own branch strings: results must not remember an earlier call's options
+			c := tok.WithBranches(c, variant)
 			if last {
 				if d, k := runOp(call.Kind, nodes[call.P], c, variant, &a.Exp, mdDiff); d != "" {
 					return fmt.Sprintf("call %d %s(#%d): %s", i+1, call.Kind, call.P, d), call.Kind + ":" + k
